@@ -55,7 +55,31 @@ class Builder:
         p = next(self.primes)
         return self.mk("ConstantExpression", -p if neg else p)
 
+    def from_shape(self, sh: str, neg: bool = False):
+        """A concrete tree for a shape string of the parser analysis, e.g. 'Add(Constant, Negate(Variable))'."""
+        sh = sh.strip()
+        if sh == "Constant":
+            return self.const(neg)
+        if sh == "Variable":
+            return self.var()
+        head, rest = sh.split("(", 1)
+        assert rest.endswith(")"), sh
+        rest = rest[:-1]
+        args, depth, cur = [], 0, ""
+        for ch in rest:
+            if ch == "," and depth == 0:
+                args.append(cur)
+                cur = ""
+                continue
+            depth += ch == "("
+            depth -= ch == ")"
+            cur += ch
+        args.append(cur)
+        return self.mk(head.strip() + "Expression", *[self.from_shape(a, neg) for a in args])
+
     def form(self, f: str):
+        if f.startswith("@"):
+            return self.from_shape(f[2:], f[1] == "-")
         if f == "Var":
             return self.var()
         if f == "Const":
@@ -134,8 +158,11 @@ def roundtrip_case(prog: Program, S: Summaries, parent: str, forms: Tuple[str, .
 
     def body(it: Interp):
         b = Builder(it, prog)
-        kids = [b.form(f) for f in forms]
-        root = b.mk(parent, *kids)
+        if parent == "@shape":
+            root = b.form(forms[0])
+        else:
+            kids = [b.form(f) for f in forms]
+            root = b.mk(parent, *kids)
         it.root = root
         text = it.to_render(root)
         it.text = render_text(text)
@@ -270,6 +297,45 @@ def analyse_printer(repo: str, use_cache: bool = True, tier: str = "quick") -> L
         cache.parent.mkdir(exist_ok=True)
         if str(prog.repo) == "/repo" and tier == "quick":
             for old in cache.parent.glob("printcases-*.json"):
+                old.unlink()
+        cache.write_text(json.dumps(recs))
+    except Exception:
+        pass
+    return recs
+
+
+def analyse_parser_shapes(repo: str, n_tokens: int = 5, use_cache: bool = True) -> List[dict]:
+    """Round trip of every tree shape the interpreted parser builds from up to n_tokens tokens (both signs of the
+    literals): the domain follows the parser's source, not a list of forms."""
+    import json
+    from .parsecases import analyse_parser
+    from .report import VERIF
+    prog, S = _setup(repo)
+    digest = source_digest(prog, extra=f"print-parser-shapes{n_tokens}" + _self_digest())
+    cache = VERIF / ".cache" / f"printshapes-{digest}.json"
+    if use_cache and cache.exists():
+        try:
+            return json.loads(cache.read_text())
+        except Exception:
+            pass
+    shapes: Dict[str, str] = {}
+    for r in analyse_parser(repo, n_tokens):
+        if r.get("outcome") == "return" and r.get("shape") and "□" not in r["shape"] and "{" not in r["shape"]:
+            shapes.setdefault(r["shape"], r.get("surface", ""))
+    tasks = []
+    for sh in sorted(shapes):
+        tasks.append((str(prog.repo), "@shape", ("@+" + sh,)))
+        if "Constant" in sh:
+            tasks.append((str(prog.repo), "@shape", ("@-" + sh,)))
+    nproc = min(int(os.environ.get("VERIF_JOBS", "16")), os.cpu_count() or 1)
+    with mp.get_context("fork").Pool(nproc) as pool:
+        recs = pool.map(_worker, tasks, chunksize=8)
+    for r in recs:
+        r["parsed_from"] = shapes.get(r["forms"][0][2:], "")
+    try:
+        cache.parent.mkdir(exist_ok=True)
+        if str(prog.repo) == "/repo":
+            for old in cache.parent.glob("printshapes-*.json"):
                 old.unlink()
         cache.write_text(json.dumps(recs))
     except Exception:
